@@ -5,10 +5,10 @@ cd /verif
 git merge --no-edit "$1" >/dev/null 2>&1 || true
 for f in MANIFEST.json lean/SwimVerif.lean lean/SwimVerif/Registry.lean lean/Main.lean; do
   git checkout --ours -- "$f" 2>/dev/null || true
+  git add "$f" 2>/dev/null || true
 done
+if git diff --name-only --diff-filter=U | grep -q .; then echo "UNRESOLVED (fix, then re-run genreg/mkmanifest and commit):"; git diff --name-only --diff-filter=U; exit 1; fi
 python3 tools/genreg.py >/dev/null
 python3 tools/mkmanifest.py
 git add -A
-if git diff --cached --name-only --diff-filter=U | grep -q .; then echo "UNRESOLVED:"; git diff --cached --name-only --diff-filter=U; exit 1; fi
-git status --short | grep "^UU\|^AA" && exit 1
 git commit -qm "Merge $1" && echo merged "$1"
